@@ -368,6 +368,7 @@ impl WorkerTree {
 
             self.graph.remove_node(node_index);
             self.node_map.remove(&path);
+            self.forget_node(node_index);
         } else {
             let mut remove_nodes = Vec::new();
 
@@ -387,6 +388,7 @@ impl WorkerTree {
                             .push(work_item.data.output().to_path_buf());
                     }
                 }
+                self.forget_node(node_index);
             }
         }
 
@@ -504,6 +506,13 @@ impl WorkerTree {
         self.node_map.insert(path, node_index);
     }
 
+    /// Removes every reference to a node that no longer exists (its index may be reused).
+    fn forget_node(&mut self, node_index: NodeIndex) {
+        for container in self.external_dependencies.values_mut() {
+            container.remove(&node_index);
+        }
+    }
+
     fn restart_work(&mut self, node_index: NodeIndex) {
         let mut dfs = Dfs::new(&self.graph, node_index);
 
@@ -516,7 +525,7 @@ impl WorkerTree {
             log::debug!("restart work for {}", item.source().display());
             for path in item.external_file_dependencies.iter() {
                 if let Some(container) = self.external_dependencies.get_mut(path) {
-                    container.remove(&node_index);
+                    container.remove(&dependent_node);
                 }
             }
             item.reset();
